@@ -27,6 +27,7 @@ func propC12(c *Ctx) propInfo {
 	c.errflow(excC12E2, "liteclient")
 	c.queryFraming()
 	c.connectionDispatch()
+	c.nilContradictions("E1.P8-nil-contradiction", "liteclient")
 	la := c.newLockAnalysis("liteclient")
 	la.guardedBy("E9.K1-guarded-by", guardedLiteclient, map[string]string{
 		"(*liteclient.Connection).setupEncryptedConnection read liteclient.Connection.econn":   "read by the single goroutine that performs the (re)connect; status is Connecting, so Send and other users do not touch econn until this goroutine publishes Connected",
